@@ -77,9 +77,18 @@ theorem step_refines [BEq α] (t : Tup α) (op : Op α) (l' : List α)
       rw [if_pos hn']; simp
     · rw [if_neg hn] at h; cases h
   | sort f => simp [Spec.tupStep] at h; subst h; simp [step, sortBy]
-  | assign ys => simp [Spec.tupStep] at h; subst h; simp [step, assign]
+  | assign ys b =>
+    simp only [Spec.tupStep] at h
+    cases b
+    · by_cases he : t.items.isEmpty = true
+      · simp [he] at h; subst h
+        have : t.items = [] := by simpa [List.isEmpty_iff] using he
+        simp [step, assign, this]
+      · simp [he] at h
+    · simp at h; subst h; simp [step, assign]
 
-theorem step_out_of_range [BEq α] (t : Tup α) (op : Op α) (h : Spec.tupStep t.items op = none) :
+theorem step_out_of_range [BEq α] (t : Tup α) (op : Op α) (hop : op.iterAssign = false)
+    (h : Spec.tupStep t.items op = none) :
     (t.step op).1 = t ∧ ∃ e, (t.step op).2 = .raised e := by
   have hlen : t.len = t.items.length := rfl
   cases op with
@@ -121,7 +130,10 @@ theorem step_out_of_range [BEq α] (t : Tup α) (op : Op α) (h : Spec.tupStep t
       simp only [step, resize]
       rw [if_neg hn']; simp
   | sort f => simp [Spec.tupStep] at h
-  | assign ys => simp [Spec.tupStep] at h
+  | assign ys b =>
+    cases b
+    · simp [Op.iterAssign] at hop
+    · simp [Spec.tupStep] at h
 
 theorem get_eq (t : Tup α) (i : Int) :
     t.get i = match Spec.get t.items i with
